@@ -81,6 +81,10 @@ CLAIMED = {
    text="Deductive proof with a ghost 'signed but not yet published' flag: on every path of the four signing functions of cmd/keymasterd (user X.509, user SSH, role-requesting, cloud-role) a 200 response header is written, or the DER returned, only after the certificate signed in this request was handed to the event notifier, and the PEM body is encoded from the very DER that was published; call-graph rules pin every x509.CreateCertificate / ssh SignCert call in /repo to those functions (or named start-up code); the six publish entry points and everything they call in /repo contain no blocking channel operation (structural sweep) and use the subscriber table only under its mutex; the monitoring daemon's event loop saves a snapshot only if no event was recorded since it was taken (loop invariant over the select loop with a ghost dirty flag). BOUNDED stand-in, reported apart and never counted as proved: save -> load of the per-user history keeps order and drops only expired entries, run on the real functions for every history of <= 5 events (<= 4 in the quick tier).",
    note=TRUST + "Delivery to a subscriber (TCP, JSON encoding) and the SSH wire encoding returned to the requester are not under contract; publication of web/service-provider login events is not claimed. The doubly linked history lists have no reachability predicate in the contract language: that clause is bounded, not proved.",
    design="7 (C20)"),
+ "C19": dict(
+   text="Deductive proof that the certificate request built by lib/client/twofa carries exactly the serialisation (PKIX DER in a PUBLIC KEY PEM block, or the SSH authorized-key line) of signer.Public() of the signer it was given (ghost chain over MarshalPKIXPublicKey / pem.EncodeToMemory / ssh.NewPublicKey / MarshalAuthorizedKey down to the request body); call-graph rules pin every private-key serialiser in /repo (PKCS1, PKCS8, OpenSSH) to the four client functions that write key files and to the server's configuration generator - none in code that builds requests; each of those writes the key file through ioutil.WriteFile with mode 0600 (call-site clauses; client code has no os.Create/os.OpenFile); the agent clean-up examines every identity the agent lists before the only Add call; the client generates only P-256/P-384 (plus RSA, Ed25519) keys and the server's key-line pattern accepts the authorized-key line of each of those types (regular-expression inclusion decided exactly by the engine, constant-pattern regexp.MatchString given its exact meaning).",
+   note=TRUST + "That bytes reach only the intended sink (the data flow through bytes.Buffer/multipart inside createKeyBodyRequest) is argued by the absence of private-key serialisers, not by a taint proof; the FIDO/U2F device library (github.com/flynn/u2f/u2fhid) does not type-check in this sandbox (cgo/libudev) and is a body-less stub; removal decisions inside the agent clean-up (certificate + same comment) are not under contract; RSA key size and agent lifetimes are not claimed.",
+   design="7 (C19)"),
 }
 
 NOT_YET = "check not built yet in this snapshot of /verif (work in progress; see DESIGN.md section 7 for the planned contracts)"
